@@ -25,9 +25,9 @@ func init() {
 			"balance tolerance 10*massBalanceLimit (0.01 m3); relation checked in flow space |q*-Q|*dt<=10*massBalanceLimit, only when 0<Q<available flux and bias=0",
 		},
 		Workloads: []core.Workload{
-			{Name: "storagerouting", Variant: "plain", N: core.Tiered(200, 60000), Run: c11SR},
-			{Name: "muskingum", Variant: "plain", N: core.Tiered(200, 40000), Run: c11Musk},
-			{Name: "lag", Variant: "plain", N: core.Tiered(13*20+100, 13*20+30000), Run: c11Lag},
+			{Name: "storagerouting", Variant: "plain", N: core.Tiered(600, 60000), Run: c11SR},
+			{Name: "muskingum", Variant: "plain", N: core.Tiered(600, 40000), Run: c11Musk},
+			{Name: "lag", Variant: "plain", N: core.Tiered(13*20+300, 13*20+30000), Run: c11Lag},
 		},
 		RequireTags: func(string) []string {
 			return []string{"sr:path1", "sr:path2", "sr:path4", "sr:path6", "lag:lag>len", "lag:padded-row", "musk:steady", "musk:event", "musk:windows"}
